@@ -959,18 +959,18 @@ class Reaction(Object):
         # no references to model when copying
         model = self._model
         self._model = None
-        for i in self._metabolites:
-            i._model = None
-        for i in self._genes:
+        # metabolites and genes may belong to a model even if the reaction
+        # does not (any more)
+        models = {i: i._model for i in self._metabolites}
+        models.update((i, i._model) for i in self._genes)
+        for i in models:
             i._model = None
         # now we can copy
         new_reaction = deepcopy(self)
         # restore the references
         self._model = model
-        for i in self._metabolites:
-            i._model = model
-        for i in self._genes:
-            i._model = model
+        for i, i_model in models.items():
+            i._model = i_model
         return new_reaction
 
     def __add__(self, other: "Reaction") -> "Reaction":
